@@ -1,8 +1,6 @@
-// ===== prelude/footer_stub.rs : ASSUMED CONTRACT of lib.rs ArchiveFooter::serialize_into
-// Its body merges the two indexes by iterating a HashMap (for (k, i) in files_info { ids_info.get(i)... }), which Verus
-// cannot take; the contract below is transcribed from the body: every name must have a FileInfo (otherwise
+// ===== prelude/footer_stub.rs : CONTRACT of lib.rs ArchiveFooter::serialize_into, PROVED in unit `footer` (same clauses) and used
+// by contract in the units that call it (needs prelude/footer_spec.rs). In words: every name must have a FileInfo (otherwise
 // WrongWriterState), then bincode(fixint, limited) of the merged map, then its length as u32 LE.
-pub uninterp spec fn footer_enc(files: Map<Seq<char>, u64>, infos: Map<u64, FileInfo>) -> Seq<u8>;
 
 pub struct ArchiveFooter { _p: u8 }
 impl ArchiveFooter {
